@@ -136,7 +136,11 @@ func (c *Ctx) Journal(desc interface{}) {
 	if c.w != nil {
 		c.w.journal(c.Index, c.sub, b)
 		// the CPU budget is counted from here: from the moment the library is about to be entered
-		c.w.caseStart.Store(cpuNow())
+		if threadClock {
+			c.w.caseStart.Store(threadCPU(c.w.mainTid))
+		} else {
+			c.w.caseStart.Store(cpuNow())
+		}
 	}
 	if c.Replay {
 		fmt.Printf("case %d.%d: %s\n", c.Index, c.sub, b)
